@@ -157,7 +157,7 @@ def generate(seed, tier, cfg):
             oi = f.randrange(0, len(ops))
             kind = f.choice(("F1", "F2", "F2", "F3", "F4", "F4")) if ops[oi]["k"] == "save" else f.choice(("F5", "F6", "F6"))
             err = {"F1": f.choice((28, 13)), "F2": f.choice((28, 5)), "F3": 28, "F4": 0, "F5": f.choice((2, 13)), "F6": 5}[kind]
-            faults.append({"kind": kind, "path": "*", "at": f.choice((0, 0, 1, 2, 3, 5)) if kind in ("F2", "F4", "F6") else 0, "errno": err, "op_index": oi})
+            faults.append({"kind": kind, "path": "*", "at": f.choice((0, 0, 1, 2, 3, 5)) if kind in ("F2", "F4", "F6") else 0, "errno": err, "op_index": oi, "frac": (round(f.random(), 3) if kind in ("F2", "F4", "F6") and f.random() < 0.5 else None)})
     return {"mode": "roundtrip", "perf": perf, "ops": ops, "faults": faults, "knobs": {"form": form, "merge_save": k.random() < 0.2, "merge_load": k.random() < 0.2, "chunk": k.choice((0, 0, 7, 16, 1)), "bufsize": k.choice((-1, 16, 512))}}
 
 
@@ -469,6 +469,7 @@ def execute(case, keep_log=False):
     check_file(res, ref_bytes, pps, perf, kn)
     file_ok = not res.violations
     fs = SimFS(chunk=kn["chunk"])
+    fs.expect_transfer(len(ref_bytes), kn["bufsize"])
     path = "/simfs/perf.mid"
     content = {}
     fault_by_op = {}
@@ -482,7 +483,7 @@ def execute(case, keep_log=False):
     with fs:
         g0 = G.fingerprint()
         for i, op in enumerate(case["ops"]):
-            fs.faults = [Fault(f["kind"], f["path"], f["at"], f["errno"]) for f in fault_by_op.get(i, [])]
+            fs.faults = [Fault(f["kind"], f["path"], f["at"], f["errno"], frac=f.get("frac")) for f in fault_by_op.get(i, [])]
             fs.inflight_points = []
             fired_before = dict(fs.fired)
             outcome = None
